@@ -80,3 +80,21 @@ Proof.
   split; [exact Th|]. intro D. unfold b_may_start. cbn [tget]. rewrite Th, D. cbn [thr_live negb andb].
   apply orb_true_iff. right. now apply Nat.leb_le.
 Qed.
+
+(* ---- K2, plan level: the automaton lets the plan's post / deferred group begin a run only when the plan's continuous
+   thread is no longer live, lets a continuous re-run begin only while it is live, and in PPost a live thread means
+   that the post group has not begun (the trace-level strict clause at plan level is not proved here) ---- *)
+Theorem c07_plan_deferred_guard_l : forall sh tr s,
+  run sh init tr = Some s ->
+  (p_may_start s GPost = true \/ p_may_start s GDeferred = true -> thr_live (s_thr s) = false)
+  /\ (p_may_start s GCont = true -> s_ph s = PPre \/ thr_live (s_thr s) = true)
+  /\ (s_ph s = PPost -> s_thr s = TLive -> t_post (s_g s) = g0).
+Proof.
+  intros sh tr s H. destruct (inv_reach _ _ _ H) as [[P _] _]. split; [|split].
+  - unfold p_may_start. intros [Q|Q]; apply andb_true_iff in Q as [Q _]; apply andb_true_iff in Q as [_ Q];
+      now apply negb_true_iff in Q.
+  - unfold p_may_start. intro Q. apply orb_true_iff in Q as [Q|Q].
+    + left. apply andb_true_iff in Q as [Q _]. destruct (s_ph s); try discriminate Q. reflexivity.
+    + right. apply andb_true_iff in Q as [Q _]. now apply andb_true_iff in Q as [Q _].
+  - apply (pi_post _ _ P).
+Qed.
